@@ -311,7 +311,42 @@ pub trait Quantity: Copy + Sized + Mul<AmountT> {
             } else {
                 tmp = format!("{} {}", abs_amnt, self.unit());
             }
-            form.pad_integral(amnt_non_neg, "", &tmp)
+            // `Formatter::pad_integral` measures `tmp` in bytes, which gives
+            // too little padding for unit symbols like "µm", "m²" or "°C",
+            // so sign and padding are written here, counting characters.
+            let sign = if !amnt_non_neg {
+                "-"
+            } else if form.sign_plus() {
+                "+"
+            } else {
+                ""
+            };
+            let n_pad = form
+                .width()
+                .unwrap_or(0)
+                .saturating_sub(sign.len() + tmp.chars().count());
+            let zero_pad = form.sign_aware_zero_pad();
+            let (n_pre, n_post) = match form.align() {
+                _ if zero_pad => (0, 0),
+                Some(fmt::Alignment::Left) => (0, n_pad),
+                Some(fmt::Alignment::Center) => (n_pad / 2, n_pad - n_pad / 2),
+                _ => (n_pad, 0),
+            };
+            let fill = form.fill();
+            for _ in 0..n_pre {
+                fmt::Write::write_char(form, fill)?;
+            }
+            form.write_str(sign)?;
+            if zero_pad {
+                for _ in 0..n_pad {
+                    form.write_str("0")?;
+                }
+            }
+            form.write_str(&tmp)?;
+            for _ in 0..n_post {
+                fmt::Write::write_char(form, fill)?;
+            }
+            Ok(())
         }
     }
 }
